@@ -540,70 +540,149 @@ def run_scenarios(ctx, scs, full=False, label="gen"):
 
 # ----------------------------------------------------------------------------------------- kinetics inside ADVECTION / TRANSPORT
 
-def column_text(mode, m0, k, tol, dt, shifts, opts, disp):
-    L = ["RATES", " Aa", " -start", "  10 rate = PARM(1) * M", "  20 SAVE rate * TIME", " -end",
-         "SOLUTION 0-3", " units mol/kgw", " Na %s" % SOLUTION_NA, " Cl %s" % SOLUTION_NA,
-         "KINETICS 1-3", " Aa", "  -formula NaCl 1", "  -m0 %s" % m0, "  -m %s" % m0, "  -parms %s" % k, "  -tol %s" % tol] + [" " + o for o in opts]
-    if mode == "adv":
-        L += ["ADVECTION", " -cells 3", " -shifts %d" % shifts, " -time_step %s" % dt, " -punch_cells 2-3", " -punch_frequency 1"]
+KEY_TR_TIME = "C12:transport-inflow-cell-reported-time"
+
+
+def column_text(m):
+    """first- or zero-order reactant in every cell of a column; all solutions (column and boundaries) identical"""
+    n = m["cells"]
+    if m["order"] == 1:
+        prog = ["  10 rate = PARM(1) * M", "  20 SAVE rate * TIME"]
     else:
-        L += ["TRANSPORT", " -cells 3", " -shifts %d" % shifts, " -time_step %s" % dt, " -flow_direction forward", " -boundary_conditions flux flux",
-              " -lengths 1", " -dispersivities %s" % disp, " -diffusion_coefficient 0.3e-9", " -punch_cells 2-3", " -punch_frequency 1"]
+        prog = ["  10 rate = PARM(1)", "  20 IF (M <= 0) THEN rate = 0", "  30 SAVE rate * TIME"]
+    L = ["RATES", " Aa", " -start"] + prog + [" -end",
+         "SOLUTION 0-%d" % (n + 1), " units mol/kgw", " Na %s" % SOLUTION_NA, " Cl %s" % SOLUTION_NA,
+         "KINETICS 1-%d" % n, " Aa", "  -formula NaCl 1", "  -m0 %s" % m["m0"], "  -m %s" % m["m0"], "  -parms %s" % m["k"], "  -tol %s" % m["tol"]] + [" " + o for o in m["opts"]]
+    # no batch reaction of solution 0 with KINETICS 1 before the column calculation
+    L += ["USE kinetics none", "END"]
+    if m["mode"] == "adv":
+        L += ["ADVECTION", " -cells %d" % n, " -shifts %d" % m["shifts"], " -time_step %s" % m["dt"], " -punch_cells 1-%d" % n, " -punch_frequency 1"]
+    else:
+        L += ["TRANSPORT", " -cells %d" % n, " -shifts %d" % m["shifts"], " -time_step %s" % m["dt"], " -flow_direction %s" % m["flow"],
+              " -boundary_conditions %s" % m["bc"], " -lengths %s" % m["length"], " -dispersivities %s" % m["disp"],
+              " -diffusion_coefficient %s" % m["diffc"], " -punch_cells 1-%d" % n, " -punch_frequency 1"]
     L += ["SELECTED_OUTPUT 1", " -reset false", " -high_precision true", " -step true", " -time true", " -solution true", " -kinetic_reactants Aa",
           "USER_PUNCH 1", " -headings total_time cell kin", " 10 PUNCH TOTAL_TIME, CELL_NO, KIN(\"Aa\")", "END"]
     return "\n".join(L) + "\n"
 
 
-def run_columns(ctx, n):
-    """first-order decay in the cells of a 3-cell column (all solutions identical, so the rate sees no chemistry change):
-    after s shifts of time_step dt the reactant of cells 2 and 3 must follow m0 exp(-k s dt) within 100 tol"""
-    rng = ctx.rng
-    jobs, meta = [], {}
+def column_case(rng, i):
     integ = [["-runge_kutta 1"], ["-runge_kutta 2"], ["-runge_kutta 3"], ["-runge_kutta 6"], ["-cvode true"]]
-    for i in range(n):
-        mode = "adv" if i % 2 == 0 else "tr"
-        dt = rng.choice([10, 100, 3600, 86400])
-        shifts = rng.choice([2, 3, 4, 6])
-        m0 = dec(rng.choice([1e-3, 1e-2, 5e-2]) * rng.uniform(0.5, 1.0))
-        k = dec(rng.choice([0.05, 0.5, 2.0]) * rng.uniform(0.5, 1.0) / (dt * shifts))
-        tol = rng.choice(["1e-7", "1e-8", "1e-9", "1e-10"])
-        opts = rng.choice(integ)
-        disp = rng.choice(["0", "0.1", "0.3"])
-        txt = column_text(mode, m0, k, tol, str(dt), shifts, opts, disp)
-        jid = "col-%d" % i
-        jobs.append({"id": jid, "db": "phreeqc.dat", "text": txt})
-        meta[jid] = dict(mode=mode, dt=dt, shifts=shifts, m0=m0, k=k, tol=tol, opts=opts, disp=disp, text=txt)
-    res = vlib.run_inputs(jobs, timeout_each=60, workers=min(6, vlib.NCPU))
+    dt = rng.choice([10, 100, 3600, 86400])
+    shifts = rng.choice([2, 3, 4, 5])
+    m = {"cells": rng.choice([2, 3, 4, 5]), "shifts": shifts, "dt": dt, "order": rng.choice([1, 1, 0]),
+         "m0": dec(rng.choice([1e-3, 1e-2, 5e-2]) * rng.uniform(0.5, 1.0)), "tol": rng.choice(["1e-7", "1e-8", "1e-9", "1e-10"]),
+         "opts": rng.choice(integ)}
+    if m["order"] == 1:
+        m["k"] = dec(rng.choice([0.05, 0.5, 2.0]) * rng.uniform(0.5, 1.0) / (dt * shifts))
+    else:
+        m["k"] = dec(float(m["m0"]) * rng.uniform(0.1, 0.8) / (dt * shifts))
+    kind = ["adv", "forward", "backward", "diffusion_only", "backward", "forward"][i % 6]
+    if kind == "adv":
+        m.update(mode="adv", flow="-", bc="-", disp="0", diffc="0", length="1")
+        return m
+    m["mode"] = "tr"
+    m["flow"] = kind
+    if kind == "diffusion_only":
+        m["bc"] = rng.choice(["closed closed", "constant closed", "constant constant"])
+        x = rng.choice([0.05, 0.8, 2.5])                      # diffc*dt/L^2: 1 .. ~10 mixruns per diffusion period
+        m.update(disp="0", diffc="0.3e-9", length=dec(math.sqrt(0.3e-9 * dt / x)))
+    else:
+        m["bc"] = rng.choice(["flux flux", "constant constant", "closed closed", "flux constant", "constant flux"])
+        c = rng.choice(["nomix", "disp", "disp", "diff"])
+        if c == "nomix":
+            m.update(disp="0", diffc="0", length="1")          # nmix = 0: pure advection
+        elif c == "disp":
+            m.update(disp=rng.choice(["0.1", "0.3", "0.6", "1.5"]), diffc="0.3e-9", length="1")
+        else:
+            m.update(disp="0", diffc="0.3e-9", length=dec(math.sqrt(0.3e-9 * dt / rng.choice([0.3, 1.5]))))
+    return m
+
+
+def column_sc(m):
+    if m["order"] == 1:
+        return {"family": "first", "m0": m["m0"], "k": m["k"], "tol": m["tol"]}
+    return {"family": "zero", "m0": m["m0"], "r": m["k"], "tol": m["tol"]}
+
+
+def column_rows(r, m):
+    return [x for x in vlib.table_dicts(r.get("tables", {}).get("1") or []) if isinstance(x.get("step"), int) and x["step"] >= 1
+            and isinstance(x.get("soln"), int) and 1 <= x["soln"] <= m["cells"]]
+
+
+def column_checks(m, rows):
+    """-> list of (coq expr, what, row, expected M, known-key or None)"""
+    out = []
+    sc = column_sc(m)
+    cf = closed_forms_coq(sc)["Aa"]
+    for row in rows:
+        t_exp = float(row["step"] * m["dt"])
+        what = "%s%s cell %d of %d, shift %d" % (m["mode"], "" if m["mode"] == "adv" else "/" + m["flow"], row["soln"], m["cells"], row["step"])
+        exp = closed_forms_py(sc, t_exp)["Aa"]
+        key = None
+        if abs(row["time"] - t_exp) > 1e-9 * t_exp or abs(row["total_time"] - t_exp) > 1e-9 * t_exp:
+            # signature of the known reporting defect: pure advection (nmix = 0), inflow cell, time short by half a step
+            inflow = 1 if m["flow"] == "forward" else m["cells"]
+            if (m["mode"] == "tr" and m["flow"] in ("forward", "backward") and m["disp"] == "0" and m["diffc"] == "0" and m["cells"] > 1
+                    and row["soln"] == inflow and abs(row["time"] - (t_exp - m["dt"] / 2.0)) <= 1e-9 * t_exp and abs(row["total_time"] - row["time"]) <= 1e-9 * t_exp):
+                key = KEY_TR_TIME
+            out.append(("false", what + ": reported time %r / TOTAL_TIME %r, expected %r" % (row["time"], row["total_time"], t_exp), row, exp, key))
+        if not (row["k_Aa"] >= 0) or row["k_Aa"] != row["kin"]:
+            out.append(("false", what + ": negative amount or KIN() differs", row, exp, None))
+        out.append(("check_closed %s %s %s %s" % (cf, vlib.coq_Q(t_exp), vlib.coq_Q(row["k_Aa"]), vlib.coq_Q(100 * fr(m["tol"]))),
+                    what + ": amount after %g s" % t_exp, row, exp, None))
+    return out
+
+
+def run_columns(ctx, n, cases=None):
+    """a closed-form reactant in EVERY cell of a 2-5 cell column (all solutions identical, so the rate sees no chemistry change):
+    ADVECTION, TRANSPORT forward / backward / diffusion_only, with and without dispersive mixing (nmix = 0 .. ~10), all boundary
+    conditions: after s shifts of time_step dt every cell, the inflow and outflow cells included, must have integrated exactly s*dt"""
+    rng = ctx.rng
+    ms = cases if cases is not None else [column_case(rng, i) for i in range(n)]
+    jobs = []
+    for i, m in enumerate(ms):
+        m["text"] = column_text(m)
+        m["id"] = "col-%d" % i
+        jobs.append({"id": m["id"], "db": "phreeqc.dat", "text": m["text"]})
+    res = vlib.run_inputs(jobs, timeout_each=90, workers=min(6, vlib.NCPU))
     exprs, metas = [], []
-    for jid, m in meta.items():
-        r = res.get(jid) or {}
+    for m in ms:
+        r = res.get(m["id"]) or {}
+        mm = {k: v for k, v in m.items() if k not in ("text", "id")}
         if r.get("rc") != 0:
-            ctx.notes.append("column run %s ended with rc=%s (%s)" % (jid, r.get("rc"), (r.get("err") or "")[:80]))
+            ctx.notes.append("column run ended with rc=%s (%s): %s" % (r.get("rc"), (r.get("err") or "timeout" if r.get("timeout") else r.get("err") or "")[:80], json.dumps(mm)))
             continue
-        rows = [x for x in vlib.table_dicts(r["tables"]["1"]) if x.get("soln") in (2, 3) and isinstance(x.get("step"), int) and x["step"] >= 1]
-        if len(rows) != 2 * m["shifts"]:
-            ctx.violation("C12:column-rows:" + vlib.key_of(m), "kinetics in %s: %d rows for cells 2-3, expected %d" % (m["mode"], len(rows), 2 * m["shifts"]),
-                          {"kind": "input", "database": "phreeqc.dat", "input_text": m["text"], "observed": len(rows), "expected": 2 * m["shifts"]})
+        rows = column_rows(r, m)
+        if len(rows) != m["cells"] * m["shifts"]:
+            ctx.violation("C12:column-rows:" + vlib.key_of(mm), "kinetics in a column (%s): %d rows for cells 1-%d, expected %d" % (json.dumps(mm), len(rows), m["cells"], m["cells"] * m["shifts"]),
+                          {"kind": "input", "database": "phreeqc.dat", "input_text": m["text"], "observed": len(rows), "expected": m["cells"] * m["shifts"], "column": mm})
             continue
-        for row in rows:
-            t_exp = row["step"] * m["dt"]
-            sc = {"family": "first", "m0": m["m0"], "k": m["k"], "tol": m["tol"]}
-            what = "%s cell %d shift %d" % (m["mode"], row["soln"], row["step"])
-            if abs(row["time"] - t_exp) > 1e-9 * t_exp or abs(row["total_time"] - t_exp) > 1e-9 * t_exp or not (row["k_Aa"] >= 0):
-                exprs.append("false")
-            else:
-                exprs.append("check_closed %s %s %s %s" % (closed_forms_coq(sc)["Aa"], vlib.coq_Q(row["time"]), vlib.coq_Q(row["k_Aa"]), vlib.coq_Q(100 * fr(m["tol"]))))
-            metas.append((m, what, row, closed_forms_py(sc, t_exp)["Aa"]))
-    for (m, what, row, exp), ok in zip(metas, coq_bools(exprs)):
-        ctx.case("column:%s:%s:%s" % (m["mode"], " ".join(m["opts"]), what),
-                 sample={"column": m["mode"], "opts": m["opts"], "tol": m["tol"], "check": what, "observed": row["k_Aa"], "expected": exp, "accepted": bool(ok)})
+        for c in column_checks(m, rows):
+            exprs.append(c[0])
+            metas.append((m, mm) + c[1:])
+    for (m, mm, what, row, exp, key), ok in zip(metas, coq_bools(exprs)):
+        ctx.case("column:%s:%s:%s:%s" % (m["mode"], m.get("flow"), " ".join(m["opts"]), what),
+                 sample={"column": mm, "check": what, "observed": row["k_Aa"], "expected": exp, "accepted": bool(ok)})
         if ok is None:
             ctx.obligation("coq-evaluation-of-column-cases", False, "column cases did not evaluate")
         elif not ok:
-            ctx.violation("C12:column:%s:%s" % (m["mode"], vlib.key_of([m["m0"], m["k"], m["tol"], m["opts"], what])),
-                          "kinetics inside %s (%s, tol %s): %s: M = %r at time %r / TOTAL_TIME %r, expected %r at %r" %
-                          (m["mode"], " ".join(m["opts"]), m["tol"], what, row["k_Aa"], row["time"], row["total_time"], exp, row["step"] * m["dt"]),
-                          {"kind": "input", "database": "phreeqc.dat", "input_text": m["text"], "observed": row["k_Aa"], "expected": exp, "column": {k: v for k, v in m.items() if k != "text"}})
+            ctx.violation(key or "C12:column:%s:%s" % (m["mode"], vlib.key_of([mm, what])),
+                          "kinetics inside %s (%s, tol %s, cells %d, bc %s, disp %s, diffc %s, length %s): %s: M = %r (exact %r), reported time %r" %
+                          (m["mode"] if m["mode"] == "adv" else "TRANSPORT " + m["flow"], " ".join(m["opts"]), m["tol"], m["cells"], m["bc"], m["disp"], m["diffc"], m["length"],
+                           what, row["k_Aa"], exp, row["time"]),
+                          {"kind": "input", "database": "phreeqc.dat", "input_text": m["text"], "observed": [row["k_Aa"], row["time"]], "expected": [exp, row["step"] * m["dt"]], "column": mm})
+
+
+# fixed corpus: one case per transport mode (regression cases of the seeded change C12-c: backward flow, nmix = 0 and > 0)
+COLUMN_CORPUS = [
+    {"cells": 3, "shifts": 5, "dt": 100, "order": 1, "m0": "0.01", "k": "0.001", "tol": "1e-8", "opts": ["-runge_kutta 3"], "mode": "tr", "flow": "backward", "bc": "flux flux", "disp": "0", "diffc": "0", "length": "1"},
+    {"cells": 4, "shifts": 4, "dt": 100, "order": 1, "m0": "0.01", "k": "0.001", "tol": "1e-8", "opts": ["-cvode true"], "mode": "tr", "flow": "backward", "bc": "flux flux", "disp": "0.4", "diffc": "0.3e-9", "length": "1"},
+    {"cells": 3, "shifts": 4, "dt": 100, "order": 0, "m0": "0.01", "k": "1e-5", "tol": "1e-8", "opts": ["-runge_kutta 6"], "mode": "tr", "flow": "forward", "bc": "constant constant", "disp": "0.4", "diffc": "0.3e-9", "length": "1"},
+    {"cells": 3, "shifts": 4, "dt": 100, "order": 1, "m0": "0.01", "k": "0.001", "tol": "1e-8", "opts": ["-runge_kutta 3"], "mode": "tr", "flow": "forward", "bc": "flux flux", "disp": "0", "diffc": "0", "length": "1"},
+    {"cells": 3, "shifts": 3, "dt": 100, "order": 1, "m0": "0.01", "k": "0.001", "tol": "1e-8", "opts": ["-runge_kutta 3"], "mode": "tr", "flow": "diffusion_only", "bc": "closed closed", "disp": "0", "diffc": "0.3e-9", "length": "0.0002"},
+    {"cells": 2, "shifts": 3, "dt": 100, "order": 1, "m0": "0.01", "k": "0.001", "tol": "1e-8", "opts": ["-runge_kutta 3"], "mode": "tr", "flow": "backward", "bc": "closed closed", "disp": "1.5", "diffc": "0.3e-9", "length": "1"},
+]
 
 
 # ----------------------------------------------------------------------------------------- step-level correspondence
@@ -836,15 +915,7 @@ def finish_info(ctx):
 
 
 def replay_column(ctx, rp):
-    m = rp["column"]
-    r = vlib.run_inputs([{"id": "c", "db": "phreeqc.dat", "text": rp["input_text"]}], timeout_each=60, workers=1).get("c") or {}
-    rows = [x for x in vlib.table_dicts(r.get("tables", {}).get("1") or []) if x.get("soln") in (2, 3) and isinstance(x.get("step"), int) and x["step"] >= 1]
-    sc = {"family": "first", "m0": m["m0"], "k": m["k"], "tol": m["tol"]}
-    exprs = ["check_closed %s %s %s %s" % (closed_forms_coq(sc)["Aa"], vlib.coq_Q(float(row["step"] * m["dt"])), vlib.coq_Q(row["k_Aa"]), vlib.coq_Q(100 * fr(m["tol"]))) for row in rows]
-    for row, ok in zip(rows, coq_bools(exprs)):
-        ctx.case("replay-column:%d:%d" % (row["soln"], row["step"]), sample={"cell": row["soln"], "shift": row["step"], "M": row["k_Aa"], "accepted": bool(ok)})
-        if not ok:
-            ctx.violation(rp.get("key", "C12:column"), "replay: kinetics in column, cell %d shift %d: M = %r" % (row["soln"], row["step"], row["k_Aa"]), dict(rp))
+    run_columns(ctx, 0, cases=[dict(rp["column"])])
 
 
 def replay(ctx):
@@ -891,7 +962,8 @@ def run(ctx):
     vlib.log("[C12] probes %.1fs" % (time.time() - t0)); t0 = time.time()
     run_traces(ctx, ctx.n(12, 120))
     vlib.log("[C12] traces %.1fs" % (time.time() - t0)); t0 = time.time()
-    run_columns(ctx, ctx.n(6, 40))
+    run_columns(ctx, 0, cases=[dict(c) for c in COLUMN_CORPUS])
+    run_columns(ctx, ctx.n(18, 90))
     vlib.log("[C12] columns %.1fs" % (time.time() - t0)); t0 = time.time()
     n = ctx.n(14, 180)
     fams = ["zero", "first", "rev", "chain", "ramp", "zero_exhaust", "shipped", "shipped"]
